@@ -9,7 +9,8 @@ use serde_json::{json, Value};
 use std::cell::RefCell;
 use std::collections::{BTreeMap, HashSet};
 use std::path::PathBuf;
-use std::sync::atomic::Ordering;
+use std::sync::atomic::{AtomicUsize, Ordering};
+use std::sync::Mutex;
 use std::time::Instant;
 
 #[derive(Clone, Copy, Debug, PartialEq, Eq)]
@@ -432,6 +433,91 @@ fn fan_out(seq: usize, n: usize) -> SubRun {
     out
 }
 
+// ---------------------------------------------------------------------------------------------
+// Deadlines.  A case that gets stuck inside the code under test (a lock that is never released,
+// a wait that is never signalled) must not hang the check.  `deadline()` arms a limit for the
+// lifetime of the returned guard; a watchdog thread ends the process when a limit passes:
+//  * the general per-case limit reports INCONCLUSIVE (exit 2) - a time budget is no oracle;
+//  * a limit armed by an oracle that is *about* being served (C05: "later requests are served
+//    normally") reports a violation, with a bound far above anything a served request needs
+//    (the bound is stated in the message).
+
+struct Armed {
+    id: u64,
+    due: Instant,
+    property: String,
+    kind: String,
+    case: serde_json::Value,
+    message: String,
+    violation: bool,
+}
+
+static DEADLINES: Mutex<Vec<Armed>> = Mutex::new(Vec::new());
+static DEADLINE_SEQ: AtomicUsize = AtomicUsize::new(1);
+static WATCHDOG: std::sync::Once = std::sync::Once::new();
+
+pub struct Deadline {
+    id: u64,
+}
+
+impl Drop for Deadline {
+    fn drop(&mut self) {
+        if let Ok(mut d) = DEADLINES.lock() {
+            d.retain(|a| a.id != self.id);
+        }
+    }
+}
+
+pub fn deadline<C: Serialize>(secs: u64, property: &str, kind: &str, case: &C, message: &str, violation: bool) -> Deadline {
+    WATCHDOG.call_once(|| {
+        std::thread::spawn(|| loop {
+            std::thread::sleep(std::time::Duration::from_millis(500));
+            let fired = {
+                let mut d = match DEADLINES.lock() {
+                    Ok(d) => d,
+                    Err(_) => continue,
+                };
+                let now = Instant::now();
+                match d.iter().position(|a| a.due <= now) {
+                    Some(i) => Some(d.remove(i)),
+                    None => None,
+                }
+            };
+            if let Some(a) = fired {
+                fire(a);
+            }
+        });
+    });
+    let id = DEADLINE_SEQ.fetch_add(1, Ordering::SeqCst) as u64;
+    let a = Armed { id, due: Instant::now() + std::time::Duration::from_secs(secs), property: property.to_string(), kind: kind.to_string(), case: serde_json::to_value(case).unwrap_or(serde_json::Value::Null), message: message.to_string(), violation };
+    DEADLINES.lock().unwrap().push(a);
+    Deadline { id }
+}
+
+fn fire(a: Armed) -> ! {
+    if a.violation {
+        let replay = write_replay(&a.property, &a.kind, &a.case, &a.message);
+        request_stop();
+        if worker_env().is_some() {
+            emit_and_exit(Stats::default(), Some(Violation { property: a.property, kind: a.kind, message: a.message, replay }), vec![]);
+        }
+        println!("--- {} [{}]: {}", a.property, a.kind, a.message);
+        println!("VIOLATION property={} replay={}", a.property, replay.display());
+        crate::driver::cleanup_temp_root();
+        std::process::exit(1);
+    }
+    let m = format!("{} [{}]: {}", a.property, a.kind, a.message);
+    if worker_env().is_some() {
+        emit_and_exit(Stats::default(), None, vec![m]);
+    }
+    println!("INCONCLUSIVE: {m}");
+    crate::driver::cleanup_temp_root();
+    std::process::exit(2);
+}
+
+/// Per-case limit of the engine (seconds); generous: whole quick sub-runs take less.
+pub const CASE_LIMIT_SECS: u64 = 420;
+
 fn panic_text(p: Box<dyn std::any::Any + Send>) -> String {
     if let Some(s) = p.downcast_ref::<&str>() {
         s.to_string()
@@ -471,6 +557,7 @@ where
         if !st.frozen {
             st.evals += 1;
         }
+        let _limit = deadline(CASE_LIMIT_SECS, property, kind, &case, &format!("a case did not finish within {CASE_LIMIT_SECS} s (stuck inside the code under test, or an overloaded machine)"), false);
         let r = std::panic::catch_unwind(std::panic::AssertUnwindSafe(|| f(&case, &mut st)));
         match r {
             Ok(Ok(())) => Ok(()),
@@ -566,7 +653,9 @@ where
             break;
         }
         st.evals += 1;
+        let _limit = deadline(CASE_LIMIT_SECS, property, kind, case, &format!("a case did not finish within {CASE_LIMIT_SECS} s (stuck inside the code under test, or an overloaded machine)"), false);
         let r = std::panic::catch_unwind(std::panic::AssertUnwindSafe(|| f(case, &mut st)));
+        drop(_limit);
         let msg = match r {
             Ok(Ok(())) => None,
             Ok(Err(Fail::Inconclusive(m))) => {
